@@ -13,15 +13,18 @@ import (
 func runLemmas(L *Loaded, cs *ContractSet, ps *PropSpec, timeout time.Duration, all bool, known ...KnownFinding) []*Group {
 	var out []*Group
 	want := map[string]bool{}
+	opts := map[string][]string{}
 	for _, l := range ps.Lemmas {
-		want[strings.Fields(l)[0]] = true
+		fs := strings.Fields(l)
+		want[fs[0]] = true
+		opts[fs[0]] = fs[1:]
 	}
 	for _, lm := range cs.Lemmas {
 		if !want[lm.Name] {
 			continue
 		}
 		delete(want, lm.Name)
-		out = append(out, proveLemma(L, cs, lm, timeout, all, known))
+		out = append(out, proveLemma(L, cs, lm, timeout, all, known, opts[lm.Name]...))
 	}
 	for n := range want {
 		g := &Group{Name: "lemma/" + n, Class: "LEMMA", Status: "failed", Info: "lemma not found in the loaded contract files"}
@@ -31,9 +34,18 @@ func runLemmas(L *Loaded, cs *ContractSet, ps *PropSpec, timeout time.Duration, 
 	return out
 }
 
-func proveLemma(L *Loaded, cs *ContractSet, lm *SpecFunc, timeout time.Duration, all bool, known []KnownFinding) *Group {
+func proveLemma(L *Loaded, cs *ContractSet, lm *SpecFunc, timeout time.Duration, all bool, known []KnownFinding, opts ...string) *Group {
 	d := NewDecls()
-	te := NewTypeEnv(d, "seq", false)
+	strMode, byteBV := "seq", false
+	for _, o := range opts {
+		switch o {
+		case "strings=atom":
+			strMode = "atom"
+		case "bytes=bv":
+			byteBV = true
+		}
+	}
+	te := NewTypeEnv(d, strMode, byteBV)
 	x := &Exec{L: L, d: d, te: te, cs: cs, notes: map[string]int{}, entryHeap: map[string]Term{}, inputs: map[string]Term{},
 		classes: allClasses(), funcsUsed: map[string]bool{}, exclusions: map[string]Term{}}
 	x.fnKey = "lemma"
